@@ -130,6 +130,7 @@ def run_unit(unit, defines=None, vacuity=False, rlimit=None, seed=None, tag='mai
         elif ln:
             diags.append(dict(level='raw', message=ln, spans=[], rendered=ln))
     linemap = asm['linemap']
+    asm_lines = asm['text'].split('\n')
     fn_ranges = {}
     for no, o in enumerate(linemap):
         if o and o.get('fn'):
@@ -219,6 +220,25 @@ def run_unit(unit, defines=None, vacuity=False, rlimit=None, seed=None, tag='mai
                 clause = dict(file=o['file'], line=o['line'], name=tags.get('name'), text=s['text'], of_fn=o.get('fn'))
             if o.get('kind') == 'repo' and repo_site is None:
                 repo_site = dict(file=o['file'], line=o['line'], text=s['text'], modified=o.get('modified', False))
+        # a failing step inside a hand-written lemma of a contract file: attribute it to the tags on that lemma's `ensures`
+        if tags is None and fn is None:
+            for s_ in spans:
+                o = s_['origin']
+                if o and o.get('kind') == 'template' and s_['line']:
+                    k = s_['line']
+                    while k > 0 and not re.search(r'\bproof fn\b', asm_lines[k - 1] if k - 1 < len(asm_lines) else ''):
+                        k -= 1
+                    j = k
+                    while 0 < j < len(linemap) and j < k + 40:
+                        oj = linemap[j]
+                        if oj and oj.get('tags') and (oj['tags']['props'] or oj['tags']['name']):
+                            tags = oj['tags']
+                            clause = dict(file=oj['file'], line=oj['line'], name=tags.get('name'), text='', of_fn=None)
+                            break
+                        if j > k and re.search(r'^\s*\{', asm_lines[j - 1]):
+                            break
+                        j += 1
+                    break
         # untagged contract clause: still name it
         if clause is None:
             for s in spans:
